@@ -14,7 +14,8 @@ import (
 	"fmt"
 	"os"
 	"runtime/debug"
-	"runtime/pprof"
+	"sync/atomic"
+	"time"
 
 	"golang.org/x/crypto/ssh"
 	"verif/checks/c32/authx"
@@ -24,11 +25,6 @@ import (
 
 func main() {
 	debug.SetGCPercent(400)
-	if f := os.Getenv("C32_CPUPROFILE"); f != "" { // development aid
-		w, _ := os.Create(f)
-		pprof.StartCPUProfile(w)
-		vf.Main("C32", vf.ModelChecking, func(c *vf.Ctx) { run(c); pprof.StopCPUProfile() })
-	}
 	vf.Main("C32", vf.ModelChecking, run)
 }
 
@@ -50,10 +46,10 @@ func run(c *vf.Ctx) {
 
 	tables := authx.C32Tables()
 	// quick: full alphabet to depth 2, 26-letter alphabet to depth 3;
-	// thorough: full alphabet to depth 3, 20-letter alphabet to depth 4.
+	// thorough: full alphabet to depth 3, 26-letter alphabet to depth 4.
 	fullDepth, coreDepth, smallDepth := 2, 3, 0
 	if c.Thorough {
-		fullDepth, coreDepth, smallDepth = 3, 0, 4
+		fullDepth, coreDepth, smallDepth = 3, 4, 0
 	}
 	if d := os.Getenv("C32_DEPTH"); d != "" { // development aid
 		fmt.Sscan(d, &fullDepth)
@@ -294,12 +290,19 @@ func realClient(c *vf.Ctx, fx *authx.Fixture) {
 			done <- res{conn.Permissions, nil}
 			conn.Wait()
 		}()
+		var hung atomic.Bool
+		watchdog := time.AfterFunc(authx.HangGuard, func() { hung.Store(true); c1.Close(); c2.Close() })
 		cc, _, _, cerr := ssh.NewClientConn(c2, "pipe", &ssh.ClientConfig{User: tc.user, Auth: tc.auth, HostKeyCallback: ssh.InsecureIgnoreHostKey()})
 		r := <-done
+		watchdog.Stop()
 		if cc != nil {
 			cc.Close()
 		}
 		c2.Close()
+		if hung.Load() {
+			c.Capped("real-client pass: hang guard fired (" + tc.name + ")")
+			continue
+		}
 		c.TraceValidated(1)
 		c.Outcome(fmt.Sprintf("real-client:%s:%v", tc.name, r.err == nil))
 		if (r.err == nil) != tc.ok || (cerr == nil) != tc.ok {
